@@ -21,7 +21,8 @@ CONSTANTS
   CallOps,        \* subset of {"ref", "copyref", "arr1", "arr2", "obj", "redirect"}
   WithTwin,       \* object N is a reference with the number of object 1 and another generation
   CFIndirect,     \* streams with an explicit /Crypt filter also with indirect first array elements
-  PlainIdentity   \* unencrypted sources also have streams with /Crypt /Identity
+  PlainIdentity,  \* unencrypted sources also have streams with /Crypt /Identity
+  ParmRefLayouts  \* subset of {"dict", "array", "inddict", "indarray"}: /DecodeParms holding a reference
 
 RefSlots == {Rf(m) : m \in Nodes}
 EmptyD == IF WithDict THEN {Di(<<>>, <<>>)} ELSE {}
@@ -46,10 +47,20 @@ Dicts == IF ~WithDict THEN {}
 (* elements, or through a chain; the indirect objects are N+1 .. N+3        *)
 FName == Sc("n:FlateDecode")
 Parms == Di(<<"Columns", "Predictor">>, <<Sc("i:4"), Sc("i:12")>>)
+(* parameter dictionaries that refer to a further object m (as /JBIG2Globals does) *)
+PRef(m) == Di(<<"Columns", "JBIG2Globals", "Predictor">>, <<Sc("i:4"), Rf(m), Sc("i:12")>>)
+F2 == Ar(<<Sc("n:ASCIIHexDecode"), FName>>)
 MCAux == IF WithStream
          THEN (N + 1 :> [k |-> "val", v |-> FName]) @@ (N + 2 :> [k |-> "val", v |-> Parms])
               @@ (N + 3 :> [k |-> "ref", to |-> N + 1])
+              @@ (N + 4 :> [k |-> "val", v |-> PRef(1)])                  \* indirect dictionary
+              @@ (N + 5 :> [k |-> "val", v |-> Ar(<<Nul, PRef(1)>>)])     \* indirect array of null and a dictionary
          ELSE <<>>
+PLayout(l, m) ==
+  CASE l = "dict" -> [k |-> <<"DecodeParms", "Filter">>, e |-> <<PRef(m), FName>>]
+    [] l = "array" -> [k |-> <<"DecodeParms", "Filter">>, e |-> <<Ar(<<Nul, PRef(m)>>), F2>>]
+    [] l = "inddict" -> [k |-> <<"DecodeParms", "Filter">>, e |-> <<Rf(N + 4), FName>>]
+    [] l = "indarray" -> [k |-> <<"DecodeParms", "Filter">>, e |-> <<Rf(N + 5), F2>>]
 Layout(l) == CASE l = "none" -> [k |-> <<>>, e |-> <<>>]
                [] l = "direct" -> [k |-> <<"DecodeParms", "Filter">>, e |-> <<Parms, FName>>]
                [] l = "indirect" -> [k |-> <<"DecodeParms", "Filter">>, e |-> <<Rf(N + 2), Rf(N + 1)>>]
@@ -68,6 +79,8 @@ Streams == IF ~WithStream THEN {}
                     l \in StreamLayouts, c \in CFs}
                 \cup {[t |-> "st", k |-> Layout(l).k \o <<"K">>, e |-> Layout(l).e \o <<x>>, body |-> "b1", cf |-> c.cf, cfi |-> c.cfi] :
                     l \in StreamLayouts, c \in CFs, x \in StreamSlots}
+                \cup {[t |-> "st", k |-> PLayout(l, m).k, e |-> PLayout(l, m).e, body |-> "b1", cf |-> "default", cfi |-> FALSE] :
+                    l \in ParmRefLayouts, m \in Nodes}
 
 MCNodeKinds ==
   {[k |-> "free"]} \cup (IF WithDangling THEN {[k |-> "dangling"]} ELSE {})
